@@ -16,11 +16,13 @@ CHECK = {
                   "the real loop) is not part of this harness; it is explored by the scheduler engine with the "
                   "observation functions of hydro_step_driver.hpp. Sequential numeric code over a continuum: "
                   "exhaustive over the stated alphabet only.",
-    "level_note": "Totals compared to 64*eps*(sum |conserved| + sum |face flux|*dt); cases where a cell's mass or "
+    "level_note": "Conserved totals of fully periodic layouts are also compared step by step under every explored thread schedule of the real hydro loop (engine E1). Totals compared to 64*eps*(sum |conserved| + sum |face flux|*dt); cases where a cell's mass or "
                   "energy is negative before the scheme's clamp are only checked for finiteness/non-negativity; wall "
                   "cases need wall Mach < 1.5 (measured on the state handed to the Riemann solver).",
     "quick_deadline": 90,
     "thorough_deadline": 1100,
-    "parts": [{"name": "conservation", "bin": "c04_conservation"}],
+    "parts": [
+        {"name": "schedules", "bin": "c07_hydroloop", "args": ["--mode", "3"], "share": 0.35},{"name": "conservation", "bin": "c04_conservation"}],
     "assumptions": [],
+    "uses_parts": ["C07"],
 }
